@@ -57,9 +57,9 @@ CLAIMED = {
          'Static dominance facts of RFC 7386: insertions are control-dependent on a non-null patch member, an existing member is erased unconditionally in the found branch, a non-object patch is returned and a non-object target is reset before the loop, and the inserted value is the recursive merge of the old value (or an empty object). Necessary conditions of the algorithm on every path of the 40-line recursion. Also from_diff: the three emissions sit under exactly their conditions and are must-pass (R16.5). R16.4 by reaching definitions.',
          'Decides the listed dominance facts; does not decide equality with the RFC algorithm for all inputs nor the from_diff law.',
          'DESIGN.md §4 C16'),
- 'C18': ('set comparison of the encoder quote-trigger set with the parser special-character set; partial evaluation of the quote escape writers (CSV and TOON, all 256 characters) against the readers un-escape tables; dominance in the parser escaped_value state',
-         'Static set/table agreement for CSV: every character the parser treats specially inside an unquoted field (read from the unquoted_string state) triggers quoting in the encoder, the escape writer and the parser escaped state are inverse. TOON: every character the quoted-string writer emits is read back by the reader escape table (256 characters x 2 writers), and is_unquoted_safe rejects every string the reader would not return unchanged (structural characters, literals, numbers, empty, outer white space). Necessary conditions of the round trips for every string content. Also: TOON quoting decisions receive the delimiter in force (R18.5); CSV type inference is applied to unquoted fields only (R18.6). CSV parser handles CR wherever it handles LF (R18.7).',
-         'Decides the CSV and TOON quoting/escaping clauses; does not decide table equality after a round trip, type inference, equality of the two TOON number recognisers, nor TOON layout.',
+ 'C18': ('set comparison of the encoder quote-trigger set with the parser special-character set; partial evaluation of the quote escape writers (CSV and TOON, all 256 characters) against the readers un-escape tables; dominance in the parser escaped_value state; language inclusion between the two TOON number scanner automata extracted from the source (reachable product)',
+         'Static set/table agreement for CSV: every character the parser treats specially inside an unquoted field (read from the unquoted_string state) triggers quoting in the encoder, the escape writer and the parser escaped state are inverse. TOON: every character the quoted-string writer emits is read back by the reader escape table (256 characters x 2 writers), and is_unquoted_safe rejects every string the reader would not return unchanged (structural characters, literals, numbers, empty, outer white space). Necessary conditions of the round trips for every string content. Also: TOON quoting decisions receive the delimiter in force (R18.5); CSV type inference is applied to unquoted fields only (R18.6). CSV parser handles CR wherever it handles LF (R18.7). TOON number tokens: every token the reader number scanner lets through is one the encoder quotes when it is a string (R18.10, automaton inclusion).',
+         'Decides the CSV and TOON quoting/escaping clauses; does not decide table equality after a round trip, type inference, the numeric value of TOON number tokens, nor TOON layout.',
          'DESIGN.md §4 C18'),
  'C17': ('typestate of expected-like results over the CFG; interprocedural size-guard rule for Json index accesses; arity rule for the fixed-size streaming decoder',
          'Static error-discipline rules over reflect/*.hpp and the expansions of all reflection macro families (driver witness structs): a conversion_result/read_result/expected is dereferenced only under a dominating success test; every j[k] on a Json parameter is under a comparison with j.size() (locally or at every caller of its helper); decode_traits<std::array<T,N>> compares the count with N and requires end_array. Quantifies over all conversion sites, i.e. every malformed shape reaching them. Also: mandatory-member tests of all six N_* macro families hold exactly for positions below N in both routes (R17.2, folded with the class constants of witness types), and the streaming encode route always opens containers with their element count (R17.5). Key freshness of the generated decode loops (R17.6), no compiler-divergent brace-initialisation of json sequences (R17.7), cursor protocol of decode() (R17.8).',
